@@ -154,7 +154,7 @@ Section Inst.
   Hypothesis b512_ok : forall x, bytes_ok (blake2b512 x).
 
   Theorem algo_rt pub s : bytes_ok pub -> length pub = (ed25519_compr_len - 1)%nat -> valid_pub 2 pub = true ->
-    algo_encode sha512_256 b32_enc_nopad pub = Ok s -> algo_decode sha512_256 valid_pub b32_dec s = Ok pub.
+    algo_encode sha512_256 b32_enc_nopad pub = Ok s -> algo_decode sha512_256 valid_pub b32_enc_nopad b32_dec s = Ok pub.
   Proof.
     intros Hb Hl Hv E.
     exact (Lemmas.AddrText.algo_decode_encode sha512_256 valid_pub b32_enc_nopad b32_dec s5_len custom_ok b32_rt s5_ok
@@ -170,7 +170,7 @@ Section Inst.
   Qed.
 
   Theorem fil_rt pub_u s : fil_encode blake2b b32_enc_nopad pub_u = Ok s ->
-    fil_decode blake2b b32_dec s = Ok (blake2b blake2b160_len pub_u).
+    fil_decode blake2b b32_enc_nopad b32_dec s = Ok (blake2b blake2b160_len pub_u).
   Proof.
     exact (Lemmas.AddrText.fil_decode_encode blake2b b32_enc_nopad b32_dec b2b_len custom_ok b32_rt b2b_ok pub_u s fil_alph_ok).
   Qed.
